@@ -274,6 +274,32 @@ def run(prop, tier, replay=None):
     return finish(prop, tier, t0, cov, violations, known, broken)
 
 
+def save_pending_half(prop, tier, replay_scen=None):
+    seed = vlib.seed()
+    n = 40 if tier == "quick" else 400
+    scs = replay_scen or [{"n": 3 + (j * 7 + seed) % 12, "max": 16 + j % 5, "runfirst": j % 4, "rewrite": (j // 4) % 3, "ttl": 100 + j % 50, "seed": seed * 1000 + j}
+                          for j in range(n)]
+    with vlib.scratch("verif-save-") as work:
+        obin = vlib.build_test_binary(work, "otter")
+        inp, outp, dv = (os.path.join(work, x) for x in ("save.in.json", "save.out.ndjson", "save.dev.json"))
+        with open(inp, "w") as f:
+            json.dump(scs, f)
+        rc, out = vlib.run_test_binary(obin, "TestVerifSave", {"VERIF_IN": inp, "VERIF_OUT": outp}, timeout=600)
+        if rc != 0:
+            return 0, [], ["save driver failed:\n" + out[-2000:]]
+        t = vlib.run_tlc(work, "SaveHist", os.path.join(vlib.SPEC, "SaveHist.cfg"), workers=1, timeout=600, heap="2g",
+                         env_extra={"VERIF_TRACE": outp, "VERIF_DEVOUT": dv})
+        if not vlib.tlc_ok(t) or not os.path.exists(dv):
+            return 0, [], ["SaveHist did not complete:\n" + t["out"][-2500:]]
+        with open(dv) as f:
+            d = json.load(f)
+    viol = []
+    for x in d["devs"]:
+        sc = scs[x["rec"] - 1]
+        viol.append((x["pred"], x["detail"], vlib.save_replay(prop, "savepending-%d" % sc["seed"], [sc])))
+    return d["n"], viol, []
+
+
 def finish(prop, tier, t0, cov, violations, known, broken):
     if prop in ("C04", "C05", "C06") and not broken:
         # concurrent half of C06: gate-scheduled writers audited by WRAudit.tla (conservation, exactly once, order)
@@ -324,6 +350,14 @@ def finish(prop, tier, t0, cov, violations, known, broken):
         broken += rbroken
         for pred, detail, path in rviol:
             violations.append(({"op": "readrace", "pre": "", "field": pred, "want": "", "got": str(detail)[:300], "cfg": None}, path))
+    if prop == "C19" and not broken:
+        # saving while drain tasks handed to the executor are still pending (SaveHist.tla)
+        sn, sviol, sbroken = save_pending_half(prop, tier)
+        cov["save_with_pending_maintenance"] = sn
+        cov["traces_validated_against_impl"] += sn
+        broken += sbroken
+        for pred, detail, path in sviol:
+            violations.append(({"op": "save", "pre": "", "field": pred, "want": "", "got": str(detail)[:300], "cfg": None}, path))
     if prop in ("C04", "C05", "C07") and not broken:
         # the eviction policy object itself: every call on the real policy replayed on Policy.tla (pointer-level model of
         # policy.go / linked.go, incl. the hill climber and tasks applied out of order), judged by PolicyTrace.tla
